@@ -246,6 +246,16 @@ fn do_poll(comb: &mut dyn FnMut(&mut Context<'_>) -> String, w: usize) -> String
     o
 }
 
+/// poll a fixed-children combinator; afterwards log its poll-state table (`ps [..]`) where the crate's
+/// `Debug` impl exposes it
+fn poll_comb(c: &mut Box<dyn Comb>, w: usize) -> String {
+    let o = do_poll(&mut |cx| c.poll(cx), w);
+    if let Some(d) = c.dbg() {
+        log(format!("ps {d}"));
+    }
+    o
+}
+
 /// directed profile `waves`: a block of "slow" children that pend the same number of times and are
 /// woken together, so that many children resolve in the same poll (boundary sizes 22/23, 63/64/65,
 /// 128/129, 200; slow block of boundary length at the front, the back or spread out); the others
@@ -376,7 +386,7 @@ fn run_waves(rng: &mut Rng, fam: &str, id: &str) {
             block.ops.push(format!("p {w}"));
             let from = CTX.with(|c| c.borrow().log.len());
             let c = comb.as_mut().unwrap();
-            let o = do_poll(&mut |cx| c.poll(cx), w);
+            let o = poll_comb(c, w);
             finished = final_outcome(&o, is_stream);
             let woke_self = CTX.with(|c| c.borrow().log[from..].iter().any(|l| *l == format!("wo {w}")));
             if finished || !woke_self || (is_stream && o != "P") {
@@ -520,7 +530,7 @@ fn run_exh(fam: &str, id: &str, k: u64) {
                 }
                 block.ops.push(format!("p {w}"));
                 let c = comb.as_mut().unwrap();
-                let o = do_poll(&mut |cx| c.poll(cx), w);
+                let o = poll_comb(c, w);
                 finished = final_outcome(&o, is_stream);
             }
             2 => {
@@ -659,7 +669,7 @@ fn run_fixed(rng: &mut Rng, fam: &str, id: &str, prof: &Profile) {
                 block.ops.push(format!("p {cur_w}"));
                 let from = CTX.with(|c| c.borrow().log.len());
                 let c = comb.as_mut().unwrap();
-                let o = do_poll(&mut |cx| c.poll(cx), cur_w);
+                let o = poll_comb(c, cur_w);
                 finished = final_outcome(&o, is_stream);
                 last_item = o.starts_with('S');
                 woken = CTX.with(|c| c.borrow().log[from..].iter().any(|l| *l == format!("wo {cur_w}")));
@@ -711,7 +721,7 @@ fn run_fixed(rng: &mut Rng, fam: &str, id: &str, prof: &Profile) {
             }
             block.ops.push(format!("p {cur_w}"));
             let c = comb.as_mut().unwrap();
-            let o = do_poll(&mut |cx| c.poll(cx), cur_w);
+            let o = poll_comb(c, cur_w);
             polls += 1;
             finished = final_outcome(&o, is_stream);
             last_pending = o == "P";
@@ -902,6 +912,12 @@ fn run_group(rng: &mut Rng, stream: bool, id: &str, prof: &Profile) {
             } {
                 log("an 98 0".into());
                 break;
+            } else if !last_o.is_empty() && rng.chance(7) {
+                // the membership changes while the group is being drained: an insert, an extend (into
+                // whatever slots are vacant by now) or a removal; the consumer polls again afterwards
+                g_woken = true;
+                drain_budget = usize::MAX;
+                *rng.pick(&[0usize, 75, 86])
             } else if g_woken || last_o.starts_with('S') || last_o.is_empty() {
                 30
             } else {
@@ -1248,6 +1264,9 @@ fn replay_co(header: &str, scripts: &[(usize, Vec<Step>)], ops: &[String]) {
     }
     let block = Block { header: header.to_string(), scripts: scripts.to_vec(), ops: Ops(ops.to_vec()) };
     block.sync();
+    for o in ops {
+        mirror_op(o);
+    }
     let vec_items: Option<usize> = if hw.get(9).cloned() == Some("v") { Some(hw[8].parse().unwrap()) } else { None };
     let mut top: Option<CoComb> = Some(CoComb { top: build_co(term, shape, &takes, &limits, vec_items) });
     let mut finished = false;
@@ -1447,6 +1466,9 @@ fn replay_nest(header: &str, scripts: &[(usize, Vec<Step>)], ops: &[String]) {
     }
     let block = Block { header: header.to_string(), scripts: scripts.to_vec(), ops: Ops(ops.to_vec()) };
     block.sync();
+    for o in ops {
+        mirror_op(o);
+    }
     let mut top: Option<NestTop> = Some(build_nest(outer, &spec));
     let mut finished = false;
     for o in ops {
@@ -1564,6 +1586,9 @@ fn replay_one(header: &str, scripts: &[(usize, Vec<Step>)], ops: &[String]) {
     }
     let block = Block { header: header.to_string(), scripts: scripts.to_vec(), ops: Ops(ops.to_vec()) };
     block.sync();
+    for o in ops {
+        mirror_op(o);
+    }
     let is_group = fam == "futGroup" || fam == "strGroup";
     if is_group {
         #[cfg(feature = "cfg-alloc")]
@@ -1587,7 +1612,7 @@ fn replay_one(header: &str, scripts: &[(usize, Vec<Step>)], ops: &[String]) {
             match ws[0] {
                 "p" => {
                     if let Some(c) = comb.as_mut() {
-                        do_poll(&mut |cx| c.poll(cx), ws[1].parse().unwrap());
+                        poll_comb(c, ws[1].parse().unwrap());
                     }
                 }
                 "f" => fire_op(ws[1].parse().unwrap(), ws[2].parse().unwrap()),
